@@ -1,5 +1,7 @@
 """C12 - cache returns only right-key, unexpired results and retains the LRU `limit`."""
-from harness.legs import cfg_text, leg_m, leg_mutant, leg_r
+import random
+
+from harness.legs import cfg_text, leg_m, leg_mutant, leg_r, leg_t_gen
 from harness.vloop import VClock, VLoop
 
 SPEC = "Cache"
@@ -162,6 +164,32 @@ class CacheDriver:
                 self.clock.__exit__(None, None, None)
 
 
+def gen_trace(rnd, length):
+    form = rnd.choice(ALL_FORMS)
+    limit = rnd.choice([1, 2, 2, 3, 4])
+    expn = rnd.choice([0, 2, 3, 5])
+    d = factory(5, 3)()
+    d.reset(dict(form=form, limit=limit, expn=expn))
+    tr = [dict(ev="Init", init=dict(form=form, limit=limit, expn=expn))]
+    nkeys = rnd.choice([2, 3, 5])
+    try:
+        for _ in range(length):
+            if rnd.random() < 0.25:
+                args = [rnd.choice([1, 1, 2, 3])]
+                name = "Advance"
+            else:
+                r = rnd.choice([1, 2, 3]) if form.endswith("method") else 0
+                args = [r, rnd.randint(1, nkeys), "exc" if rnd.random() < 0.15 else "val"]
+                name = "Call"
+            o = d.apply(name, tuple(args))
+            tr.append(dict(ev=name, args=args, obs=dict(o, drain=list(o["drain"]))))
+        o = d.apply("Drain", ())
+        tr.append(dict(ev="Drain", args=[], obs=dict(o, drain=list(o["drain"]))))
+    finally:
+        d.close()
+    return tr
+
+
 def factory(nkeys, nrecv):
     def make():
         d = CacheDriver()
@@ -222,6 +250,24 @@ def run(rep, work, tier, seed):
     for name, mc, conf in gs:
         leg_r(rep, work, SPEC, f"conf_{name}_{tier}", cfg_text(conf, invariants=INVS),
               factory(conf["NKeys"], conf["NRecv"]))
+    # the async forms with an invocation still in flight when its entry expires or is evicted (concurrency proper is C13)
+    from props.c13 import FlightDriver
+    flight = dict(NCallers=2, NKeys=2, Limits=[1], Expirations=[2], MaxT=3, MaxOps=5 if tier == "quick" else 6, Bug="none")
+    leg_r(rep, work, "CacheFlight", f"flight_conf_{tier}", cfg_text(flight, invariants=["TypeOK", "Delivers", "RightKey"]),
+          FlightDriver)
+    # leg T: long random histories (the property's "up to length 60") recorded from the real decorator and validated by a
+    # trace module generated from Cache.tla: 5 keys, 3 receivers, limits 1..4, several expirations, clock jumps 1..3
+    rnd = random.Random(seed * 31 + 7)
+    ntr, length = (150, 60) if tier == "quick" else (1500, 60)
+    traces = [gen_trace(rnd, length) for _ in range(ntr)]
+    leg_t_gen(rep, work, SPEC, f"trace_{tier}", traces,
+              variables=["form", "limit", "expn", "now", "entries", "ninv", "invKey", "invAt", "invOut", "uses", "nops",
+                         "drained", "obs"],
+              constants=dict(NKeys=5, NRecv=3, Forms='{"sync_fn", "sync_method", "async_fn", "async_method"}', Limits="1..4",
+                             Expirations="{0, 2, 3, 5}", MaxT=100000, MaxOps=100000, Outs='{"val", "exc"}',
+                             Steps="1..3", Bug='"none"'),
+              config_vars=["form", "limit", "expn"], actions=dict(Call=3, Advance=1, Drain=0),
+              invariants=["Capacity", "NoDuplicateKeys", "Sound"])
     rep.assumptions += [
         "key alphabet f(1), f(1.0), f(True), f(x=1), f(2) (==-equal, differently typed / positional vs keyword); method "
         "receivers are ==-equal, hash-equal, distinct instances",
@@ -238,6 +284,9 @@ def run(rep, work, tier, seed):
 
 def replay(rep, record):
     from harness.graph import parse_label
+    if record.get("spec") == "CacheFlight":
+        from props.c13 import replay as r13
+        return r13(rep, record)
     d = factory(5, 3)()
     d.reset(record["init"])
     d.nkeys = record.get("nkeys", 3)
